@@ -178,7 +178,7 @@ func c11(c *Ctx) {
 	r.Rule("R11.1", "Tsize pairing: at every call of the link constructor (name, size, link) in the builder packages, size and link have the same base value")
 	r.Rule("R11.2", "cumulative return: returned size = count of the store that yielded the returned link + accumulator; each addend of the accumulator is the size given to a link of that block (same SSA value), or the accumulator is the stored-size sum helper over the slice whose elements' stored sizes are the link sizes")
 	r.Rule("R11.3", "file metadata: FileSize/BlockSizes/byteSize are the byte-size sum/collect helpers over the very slice handed to the link packer; leaf byteSize = len(chunk) of the chunk wrapped into the stored node")
-	r.Rule("R11.4", "counting store: Write adds len(p) and forwards the same p; the count callback runs only when the encoder returned nil; sizedStore returns the count captured from its own Store call")
+	r.Rule("R11.4", "counting store: Write adds len(p) and forwards the same p; the count callback runs only when the encoder returned nil and every call through it, at any closure depth, passes the counting writer's counter (field or accessor); sizedStore returns the count captured from its own Store call")
 
 	bp := core.BuilderPkgs
 	// ---- R11.1
@@ -981,11 +981,30 @@ func (c *Ctx) checkCountingStore() {
 			k++
 			nCb++
 			key := fmt.Sprintf("%s/count-is-counter#%d", core.FuncName(fn), k)
-			good := false
-			if u, ok := call.Call.Args[0].(*ssa.UnOp); ok && u.Op == token.MUL {
-				if fa, ok := u.X.(*ssa.FieldAddr); ok {
-					if st, ok := fa.X.Type().Underlying().(*types.Pointer).Elem().Underlying().(*types.Struct); ok && counterFields[st.Field(fa.Field)] {
-						good = true
+			isCounterLoad := func(v ssa.Value) bool {
+				if u, ok := v.(*ssa.UnOp); ok && u.Op == token.MUL {
+					if fa, ok := u.X.(*ssa.FieldAddr); ok {
+						if pt, ok := fa.X.Type().Underlying().(*types.Pointer); ok {
+							if st, ok := pt.Elem().Underlying().(*types.Struct); ok && counterFields[st.Field(fa.Field)] {
+								return true
+							}
+						}
+					}
+				}
+				return false
+			}
+			good := isCounterLoad(call.Call.Args[0])
+			// … or the result of an accessor of the counting writer whose every return is that field
+			if ac, ok := call.Call.Args[0].(*ssa.Call); ok && !good {
+				if f := ac.Call.StaticCallee(); f != nil && f.Signature.Recv() != nil && len(f.Blocks) > 0 {
+					if _, isRepo := c.P.PkgOf(f); isRepo {
+						rets := core.Returns(f)
+						good = len(rets) > 0
+						for _, ret := range rets {
+							if len(ret.Results) != 1 || !isCounterLoad(ret.Results[0]) {
+								good = false
+							}
+						}
 					}
 				}
 			}
